@@ -43,6 +43,9 @@ def find_span_binsearch(degree, knot_vector, num_ctrlpts, knot, **kwargs):
     # All knot vectors should follow the rule: m = p + n + 1
     n = num_ctrlpts - 1
     if abs(knot_vector[n + 1] - knot) <= tol:
+        # At the end of the domain the parameter belongs to the last non-empty knot interval
+        while n > degree and knot_vector[n] == knot_vector[n + 1]:
+            n -= 1
         return n
 
     # Set max and min positions of the array to be searched
@@ -87,6 +90,10 @@ def find_span_linear(degree, knot_vector, num_ctrlpts, knot, **kwargs):
     span = degree + 1  # Knot span index starts from zero
     while span < num_ctrlpts and knot_vector[span] <= knot:
         span += 1
+
+    # At the end of the domain the parameter belongs to the last non-empty knot interval
+    while span - 1 > degree and knot_vector[span - 1] == knot_vector[span]:
+        span -= 1
 
     return span - 1
 
